@@ -44,6 +44,13 @@ WithObservedStrands(e, m) ==
 SameCols(kind, obs, m) ==
   LET cols == ColsOf(m) IN
   Len(obs) = Len(cols) /\ \A k \in 1..Len(cols) : SameCells(kind, obs[k], cols[k])
+\* alignment.QSeq.Column: the letter where its quality reaches the threshold (2), the ambiguous letter n below it
+QThreshold == 2
+SameColsL(kind, obsl, m) ==
+  kind = "qaln" =>
+    LET cols == ColsOf(m) IN
+    Len(obsl) = Len(cols) /\ \A k \in 1..Len(cols) : Len(obsl[k]) = Len(cols[k]) /\
+       \A i \in 1..Len(cols[k]) : obsl[k][i] = (IF cols[k][i][2] >= QThreshold THEN cols[k][i][1] ELSE 110)
 
 \* a column in which every row holds the same paired letter: the consensus is that letter up to case
 Lower(x) == IF x \in 65..90 THEN x + 32 ELSE x
@@ -61,6 +68,7 @@ ObsMatches(e, m) ==
   /\ e.obs.start = Start(m) /\ e.obs.end = End(m) /\ e.obs.len = End(m) - Start(m)
   /\ SameRows(m.kind, e.obs.rows, m.rows)
   /\ SameCols(m.kind, e.obs.cols, m)
+  /\ SameColsL(m.kind, e.obs.colsl, m)
   /\ ConsensusOK(e.obs.cons, m)
   /\ ("op" \in DOMAIN e => StrandsOK(e, m))
 
@@ -70,6 +78,7 @@ Why(e, m) ==
   ELSE IF ~(e.obs.start = Start(m) /\ e.obs.end = End(m) /\ e.obs.len = End(m) - Start(m)) THEN "Start/End/Len"
   ELSE IF ~SameRows(m.kind, e.obs.rows, m.rows) THEN "row view differs from the specified result"
   ELSE IF ~SameCols(m.kind, e.obs.cols, m) THEN "column view differs from the row view"
+  ELSE IF ~SameColsL(m.kind, e.obs.colsl, m) THEN "letters-only column view differs from the row view (quality threshold)"
   ELSE IF "op" \in DOMAIN e /\ ~StrandsOK(e, m) THEN "strand"
   ELSE "consensus of a unanimous column"
 
@@ -168,7 +177,7 @@ Step ==
      ELSE
        LET m == Apply(g, e) IN
        IF e.obs.panic = "" /\ ObsMatches(e, m)
-            /\ (e.op = "cloneprobe" => SameRows(g.kind, e.cloneobs, SetCell(g, e.i, e.p, e.c).rows))
+            /\ (e.op = "cloneprobe" => SameRows(g.kind, e.cloneobs, SetCell(g, e.i, e.p, e.c).rows) /\ e.cloneann = e.obs.ann)
             /\ (e.op = "badappendcolumns" => e.rejected)      \* and, by Apply, nothing was appended
             /\ (e.op = "cloneappend" => SameRows(g.kind, e.cloneobs, [g EXCEPT !.rows[1].cells = Append(@, e.c2)].rows))
          THEN g' = WithObservedStrands(e, m) /\ UNCHANGED <<ok, fails>>
